@@ -5,12 +5,22 @@ def _nontrivial(op, out):
     return out.startswith("rows ")
 
 
+def _corr_skip(op, impl, model):
+    # the ORDER of the printed rows is the oracle's business (it checks sortedness whenever the query orders its result); an
+    # inner ORDER BY does not order the outer query, and the engine's order among rows tied on the inner keys depends on which
+    # columns the optimizer pruned. The correspondence compares the printed rows as a bag.
+    if not (impl.startswith("rows ") and model.startswith("rows ")):
+        return False
+    return sorted(impl.split(" | ")) == sorted(model.split(" | "))
+
+
 PROP = dict(
     lean_modules=["Octo.Props.C05"],
     required_theorems=["Octo.C05.C05_count", "Octo.C05.C05_first_n", "Octo.C05.ost_spec", "Octo.C05.printer_spec",
                        "Octo.C05.choice_eager", "Octo.C05.choice_table", "Octo.C05.limit_node"],
     needs_binary=True,
     nontrivial=_nontrivial,
+    corr_skip=_corr_skip,
     rule="for generated multisets with duplicates: every n in 0..K+1 x {json,csv,stream_native,batch_table,live_table} x "
          "{top-level, nested} x {no ORDER BY, ASC, DESC}, plus random nested queries in which every block has a LIMIT; "
          "non-trivial = the run produced a row list",
